@@ -461,18 +461,20 @@ fn main() {
     //---------------------------------------------------------------- relations
     {
         let sp = ctx.space("relations",
-            "leaf kind {ca, ee, ee through validate_detached_ee_at, router} x AKI {issuer SKI, other key's SKI, absent} x SKI {hash of key, hash of another key} x signing key {issuer, other} x offered issuer {the issuer, another CA with a different key} x not-before/not-after vs 5 evaluation instants {nb-1s, nb, inside, na, na+1s}; oracle: accept <=> AKI == offered issuer's SKI and SKI == SHA-1(key) and signature verifies under the offered issuer's key and nb <= t <= na; non-trivial = exactly one condition violated");
+            "leaf kind {ca, ee, ee through validate_detached_ee_at, router} x AKI {issuer SKI, other key's SKI, absent} x SKI {hash of key, hash of another key} x signing key {issuer, other} x offered issuer {the issuer, another CA with a different key} x validity window {[nb,na], inverted (notBefore > notAfter: accepts nothing)} x 10 evaluation instants {nb-1s, nb-1ns, nb, nb+1ns, inside, na-1ns, na, na+1ns, na+0.999999999s, na+1s}; oracle: accept <=> AKI == offered issuer's SKI and SKI == SHA-1(key) and signature verifies under the offered issuer's key and nb <= t <= na; non-trivial = exactly one condition violated");
         let ca_res = Res { v4: Claim::Blocks(vec![(0x0a00_0000, 0x0aff_ffff)]), v6: Claim::Missing, asn: Claim::Blocks(vec![(64496, 64511)]) };
         let ca = valid_ca(&signer, &ta, TA_KEY, CA_KEY, ca_res.clone());
         let other_ca = valid_ca(&signer, &ta, TA_KEY, OTHER_KEY, ca_res.clone());
         let nb = T0 - 1000; let na = T0 + 1000;
         let mut cases = Vec::new();
-        for (kind, det) in [(Kind::Ca, false), (Kind::Ee, false), (Kind::Ee, true), (Kind::Router, false)] { for aki in 0..3 { for ski in 0..2 { for sk in 0..2 { cases.push((kind, det, aki, ski, sk)) } } } }
-        cases.par_iter().for_each(|&(kind, det, aki, ski, sk)| {
+        for (kind, det) in [(Kind::Ca, false), (Kind::Ee, false), (Kind::Ee, true), (Kind::Router, false)] { for aki in 0..3 { for ski in 0..2 { for sk in 0..2 { for inv in [false, true] { cases.push((kind, det, aki, ski, sk, inv)) } } } } }
+        cases.par_iter().for_each(|&(kind, det, aki, ski, sk, inv)| {
             let res = if kind == Kind::Router { Res { v4: Claim::Missing, v6: Claim::Missing, asn: Claim::Blocks(vec![(64500, 64500)]) } }
                       else { Res { v4: Claim::Blocks(vec![(0x0a00_0000, 0x0a00_00ff)]), v6: Claim::Missing, asn: Claim::Blocks(vec![(64500, 64501)]) } };
             let mut spec = Spec::issued(kind, LEAF_KEY, CA_KEY, signer.ski(CA_KEY), res, Overclaim::Refuse);
-            spec.validity = rpki::repository::x509::Validity::new(time(nb), time(na));
+            // inv: the signed bytes say notBefore > notAfter, an empty window: nothing may be accepted,
+            // in particular not the instants between the two dates
+            spec.validity = if inv { rpki::repository::x509::Validity::new(time(na), time(nb)) } else { rpki::repository::x509::Validity::new(time(nb), time(na)) };
             spec.aki = match aki { 0 => Some(signer.ski(CA_KEY)), 1 => Some(signer.ski(OTHER_KEY)), _ => None };
             // router certs carry an EC key: its identifier is not in the pool; override with a pool key's id for "wrong"
             if ski == 1 { spec.ski_override = Some(signer.ski(5)) }
@@ -481,11 +483,11 @@ fn main() {
             for (offered_name, offered, offered_key) in [("issuer", &ca, CA_KEY), ("other-ca", &other_ca, OTHER_KEY)] {
                 for (tn, t, tt) in instants(nb, na) {
                     sp.eval();
-                    let wit = || format!("kind={}{} aki={} ski={} signed_by={} offered={} t={}", kind_name(kind), if det { "(detached entry point)" } else { "" }, ["issuer", "other", "absent"][aki], ["hash", "wrong"][ski], ["issuer", "other"][sk], offered_name, tn);
+                    let wit = || format!("kind={}{}{} aki={} ski={} signed_by={} offered={} t={}", kind_name(kind), if det { "(detached entry point)" } else { "" }, if inv { " window=inverted" } else { "" }, ["issuer", "other", "absent"][aki], ["hash", "wrong"][ski], ["issuer", "other"][sk], offered_name, tn);
                     let c_aki = spec.aki == Some(signer.ski(offered_key));
                     let c_ski = ski == 0;
                     let c_sig = spec.signing_key == offered_key;
-                    let c_time = t;
+                    let c_time = t && !inv;
                     let nviol = [c_aki, c_ski, c_sig, c_time].iter().filter(|x| !**x).count();
                     if nviol == 1 { sp.nontrivial(1) }
                     let want = nviol == 0;
